@@ -8,7 +8,7 @@ from ..refmodel import ev
 
 PID = 'C15'
 LEVEL = 'exploration'
-RULE = ('exhaustive enumeration of (n, k, backing) with 0<=n<=N, every k in [-1, n+2], every shard index i (and the '
+RULE = ('exhaustive enumeration of (n, k, backing) with 0<=n<=N, every k in [-1, n+2], every shard index i (n <= 100; a spread of indices beyond) (and the '
         'negative / out-of-range ones for shard()); split(k) and shard(k, i) of list- and dict-backed datasets plus '
         'derived datasets (mapped, sliced, concatenated) as the thing being split; plus Hypothesis-generated indexable '
         'pipelines (C01 alphabet) split for every k against the reference value list. Oracle: arithmetic partition '
@@ -18,7 +18,7 @@ ASSUMPTIONS = [
     'a shard count outside 1..n must raise an Exception (the code raises ValueError); n=0 therefore rejects every k',
 ]
 
-N = {'quick': 80, 'thorough': 300}
+N = {'quick': 80, 'thorough': 200}
 
 
 def plan(tier):
@@ -83,7 +83,8 @@ def check_one(kind, n, k, full=True):
             if list(s.items()) != list(zip(s.keys(), l)):
                 raise Violation('items-pairing', f'{kind} n={n} k={k}')
     if full:
-        for i in range(k):
+        # every shard index for n <= 100, a spread of indices beyond (split itself is always checked completely)
+        for i in (range(k) if n <= 100 else sorted({0, 1, k // 3, k // 2, k - 2, k - 1} & set(range(k)))):
             sh = ds.shard(k, i)
             if list(sh) != lists[i] or len(sh) != sizes[i]:
                 raise Violation('shard-vs-split', f'{kind} n={n} k={k} i={i}: {list(sh)!r} != {lists[i]!r}')
